@@ -22,8 +22,9 @@ MANIFEST = dict(
          "2-4 real processes are driven through $VERIF_PLAN gates so that chosen interleavings are forced, and every "
          "recorded trace must be accepted by the model (accepts = true in Coq) with the same final observations.",
     note="Trusted: Coq kernel + vm_compute; hand-written model; filelock SoftFileLock (atomic create, dead-owner "
-         "markers broken), cloudpickle (codec_ok), step atomicity at checkpoint granularity. Threads are only "
-         "spec-checked, not traced.",
+         "markers broken), cloudpickle (codec_ok), step atomicity at checkpoint granularity. Thread submitters are "
+         "gated and traced like processes (one model process per thread) except for the working directory, which "
+         "belongs to the process.",
     technique="Coq invariant proofs over arbitrary traces of a transition system + trace acceptance of gated multi-process runs",
     design="§8 Group C / C10",
 )
@@ -42,6 +43,7 @@ ASSUMPTIONS = ["one checksum per model instance (a workflow's node jobs are sepa
                "for C10_once/C10_same_outputs; rerun=False", "submitters are processes (debug or cf worker); cf runs are not gated"]
 RULE = ("gated or free-running rounds of 2-4 fresh interpreters submitting the same task to one cache root (with / "
         "without an existing result or a stored failure, fast / slow body, python / shell / two-node workflow task, "
+        "submitters = processes or 2-4 threads of one interpreter, "
         "debug worker (Job.run) or cf worker (Job.run_async, PydraFileLock, node jobs in pool processes), random / "
         "burst / round-robin / scripted gate policies; the traces of a workflow's node jobs are checked per checksum); distinct = distinct sequence of (process, label) in the recorded trace; non-trivial = at least "
         "two processes recorded job.lock_acquired and the trace alternates between processes at least 3 times")
@@ -93,14 +95,29 @@ def cf_python(rng, k):
                 stages=[dict(children=[dict(subs=[{}]) for _ in range(rng.choice([2, 3]))], gate=None)], timeout=480)
 
 
+def thread_scenario(rng, k, forced):
+    """The submitters are 2-4 THREADS of one interpreter (own Submitter / Job each, one cache root), gated like
+    processes (the checkpoints carry pid.tid).  forced: thread T0 is taken to job.body_enter (inside the with
+    block, about to run the body) and only then T1 is let go from job.pre_run_done, then the policy decides."""
+    n = rng.choice([2, 3, 4])
+    gate = dict(policy=rng.choice(["random", "bursts", "roundrobin"]), seed=rng.randrange(10 ** 6))
+    if forced:
+        gate["script"] = [[0, 17, 0], [1, 1, 1.0]]
+    return dict(name="c10-threads-%d" % k, pre=(not forced) and rng.random() < 0.25,
+                task=dict(task="python", x=rng.randrange(1, 40), delay=rng.choice([0.0, 0.1])),
+                stages=[dict(children=[dict(subs=[{}], threads=n)], gate=gate)], timeout=150)
+
+
 def gen_scenarios(rng, n, corpus):
     out = [c["scenario"] for c in corpus if "scenario" in c]
     out.append(errored_first(rng, 0, True))
+    out.append(thread_scenario(rng, 0, True))
     out.append(wf_scenario(rng, 0, "debug"))
     out.append(wf_scenario(rng, 1, "cf") if rng.random() < 0.5 else cf_python(rng, 1))
     if n > 20:
         out += [wf_scenario(rng, 10 + j, "debug") for j in range(6)] + [wf_scenario(rng, 20 + j, "cf") for j in range(3)]
         out += [cf_python(rng, 30 + j) for j in range(3)]
+        out += [thread_scenario(rng, 40 + j, j % 2 == 0) for j in range(8)]
     k = 0
     while len(out) < n:
         if k % 9 == 5:
@@ -126,7 +143,7 @@ def alternations(ev):
 
 
 def run(ctx):
-    n = ctx.budget(7, 60)
+    n = ctx.budget(8, 68)
     scs = gen_scenarios(ctx.rng, n, ctx.corpus())
     with cf.ThreadPoolExecutor(max_workers=6) as ex:
         results = list(ex.map(procs.run_scenario, scs))
@@ -139,7 +156,7 @@ def run(ctx):
     for sc, res in zip(scs, results):
         bv = procs.expected_value(sc["task"])
         before = res["runs_stage"][-2] if len(res["runs_stage"]) >= 2 else 0
-        nlast = len(sc["stages"][-1]["children"])
+        nlast = sum(max(1, int(cd.get("threads", 0))) for cd in sc["stages"][-1]["children"])
         who = [c["idx"] for c in res["children"][-nlast:]]
         nodes = "None"
         if sc["task"]["task"] == "workflow":
@@ -148,6 +165,7 @@ def run(ctx):
             nodes = "(Some %d)" % (max(cnts) if min(cnts) >= 1 else 0)
             dist["workflow"] = dist.get("workflow", 0) + 1
         dist["cf_worker"] = dist.get("cf_worker", 0) + (sc["task"].get("worker") == "cf")
+        dist["thread_submitters"] = dist.get("thread_submitters", 0) + any(cd.get("threads") for cd in sc["stages"][-1]["children"])
         for key, nev in res["node_events"].items():
             node_cases.append("(false, 1, %s, (false, false, false, 0, 0, 0, 0, 0), [])" % procs.coq_events(nev))
             node_of.append((len(cases), key))
@@ -204,9 +222,10 @@ def run(ctx):
                     "body_executions": results[i]["runs"],
                     "outcomes": [c["report"][-1] if c["report"] else None for c in results[i]["children"]]}
                    for i in range(min(3, len(scs)))]
-    thr = thread_round(ctx)
-    out.extra["thread_rounds"] = thr["rounds"]
-    out.failures += thr["failures"]
+    if ctx.tier == "thorough":
+        thr = thread_round(ctx)          # free-running threads without any gate, spec only
+        out.extra["ungated_thread_rounds"] = thr["rounds"]
+        out.failures += thr["failures"]
     return out
 
 
@@ -298,7 +317,7 @@ def replay(ctx, payload):
     res = procs.run_scenario(sc)
     bv = procs.expected_value(sc["task"])
     before = res["runs_stage"][-2] if len(res["runs_stage"]) >= 2 else 0
-    nlast = len(sc["stages"][-1]["children"])
+    nlast = sum(max(1, int(cd.get("threads", 0))) for cd in sc["stages"][-1]["children"])
     who = [c["idx"] for c in res["children"][-nlast:]]
     nodes = "None"
     if sc["task"]["task"] == "workflow":
